@@ -143,11 +143,10 @@ class Survey:
                     d["z"] = "%.6f" % z
                 d["fix"] = {1: "z", 2: "xy", 3: "xyz"}[self.dim]
             else:
-                if p["approx"] == "given":
-                    if has_xy:
-                        d["x"], d["y"] = "%.6f" % (x + px), "%.6f" % (y + py)
-                    if has_z:
-                        d["z"] = "%.6f" % (z + pz)
+                if p["approx"] in ("given", "omit_z") and has_xy:
+                    d["x"], d["y"] = "%.6f" % (x + px), "%.6f" % (y + py)
+                if p["approx"] in ("given", "omit_xy") and has_z:
+                    d["z"] = "%.6f" % (z + pz)
                 a = {1: "z", 2: "xy", 3: "xyz"}[self.dim]
                 if p["con"] is True:
                     a = a.upper()
@@ -190,7 +189,19 @@ class Survey:
                 ol.append(e)
             if rnd:
                 rnd.shuffle(ol)
-            clusters.append({"type": "obs", "from": self.name(s), "obs": ol})
+            cl = {"type": "obs", "from": self.name(s), "obs": ol}
+            if "obs_cov" in self.feat and len(ol) >= 2:
+                # the standard deviations as a banded covariance matrix with small correlations between neighbours
+                sds = [float(e_["stdev"]) for e_ in ol]
+                el = []
+                for i_ in range(len(ol)):
+                    el.append("%.8f" % (sds[i_] ** 2))
+                    if i_ + 1 < len(ol):
+                        el.append("%.8f" % (0.1 * sds[i_] * sds[i_ + 1]))
+                for e_ in ol:
+                    del e_["stdev"]
+                cl["cov"] = {"dim": len(ol), "band": 1, "el": el}
+            clusters.append(cl)
         dhs = [o for o in self.obs if o["t"] == "dh"]
         if dhs:
             ol = [{"from": self.name(o["fr"]), "to": self.name(o["to"]), "val": "%.8f" % self.value(o), "stdev": "%.4f" % STDEV["dh"]} for o in dhs]
@@ -428,9 +439,10 @@ def apply_edit(sv, e):
         s.args = [a for a in s.args] + ["--cov-band", str(e["band"])]
     elif k == "OmitApprox":
         unk = [p for p in s.pts if p["role"] == "unk"]
-        sel = {1: unk[:1], 2: unk, 3: unk[::2]}[e["s"]]
+        sel = {1: unk[:1], 2: unk, 3: unk[::2], 4: unk, 5: unk[-1:], 6: unk[:1]}[e["s"]]
         for p in sel:
-            p["approx"] = "omit"
+            # 4, 5: only the height is missing (3-D networks); 6: only x, y are missing
+            p["approx"] = "omit" if e["s"] <= 3 or s.dim != 3 else ("omit_z" if e["s"] in (4, 5) else "omit_xy")
     elif k == "PerturbApprox":
         d = e["mm"] / 1000.0
         if e["mm"] > 300:
@@ -484,7 +496,9 @@ def apply_edit(sv, e):
         for st in sorted(set(o["fr"] for o in s.obs if o["t"] == "direction")):
             s.orient.setdefault(st, 12.3456)
     elif k == "InputFeatures":
-        s.feat = set(sv.feat) | {{1: "coords_split", 2: "dh_dist", 3: "dh_dist_only", 4: "dir_dh", 5: "extern", 6: "angle_dh", 7: "ellipsoid"}[e["s"]]}
+        s.feat = set(sv.feat) | {{1: "coords_split", 2: "dh_dist", 3: "dh_dist_only", 4: "dir_dh", 5: "extern", 6: "angle_dh", 7: "ellipsoid", 8: "obs_cov", 9: "obs_cov"}[e["s"]]}
+        if e["s"] == 9:
+            s.deg = True                 # the correlated clusters of a survey written in degrees
         if e["s"] == 7:
             s.params = dict(s.params, latitude="49.5", ellipsoid="wgs84", algorithm="svd")
             s.params["cov-band"] = "2"
